@@ -192,6 +192,11 @@ type Runner struct {
 	lost map[int]bool
 	// Fresh counts how many evalers were built.
 	Fresh int
+	// IOWaitIsHang: every file an evaluation can read from is fed from inside
+	// the evaluation (no outside writer exists), so an evaluation goroutine
+	// that waits in a read while every other interpreter goroutine is blocked
+	// is a deadlock as well.
+	IOWaitIsHang bool
 }
 
 // Evaler returns the current evaler, building one if needed.
@@ -499,7 +504,7 @@ func (r *Runner) settledHang(evalGID int) (sig, dump string, running bool) {
 		return "", b.allText, true
 	}
 	st := b.evalG.State
-	if strings.HasPrefix(st, "IO wait") {
+	if strings.HasPrefix(st, "IO wait") && !r.IOWaitIsHang {
 		// waiting for input from outside the evaluation: not a deadlock
 		return "", b.allText, false
 	}
